@@ -88,6 +88,16 @@ TrTook ==
        /\ th' = [th EXCEPT ![Ev.t] = [pc |-> "done", s |-> s, res |-> Ev.x]]
     /\ UNCHANGED <<phase, toShut, ndel, cur>>
 
+\* the same critical section inside an opaque operation (close() of an established connection takes the peer's DM
+\* from the receive queue): only the queue is tracked
+TrTookOpq ==
+    /\ Is("Took") /\ Step
+    /\ ~IsMod(Ev.t)
+    /\ IF Ev.x = "data"
+       THEN sk[Ev.s].rq > 0 /\ sk' = [sk EXCEPT ![Ev.s].rq = @ - 1]
+       ELSE sk[Ev.s].rq = 0 /\ sk' = sk
+    /\ UNCHANGED <<phase, th, toShut, ndel, cur>>
+
 ResClass == IF Ev.x \in {"data", "error"} THEN Ev.x ELSE "exc"
 BeingShut(s) == phase = "terminating" /\ s \in toShut
 
@@ -119,8 +129,12 @@ TrDeliver ==
 TrTermBegin == /\ Is("TermBegin") /\ Step
                /\ TermBegin
                /\ UNCHANGED cur
+\* (an application close() is two steps in the code - the socket is shut down, then taken off its access point under
+\* the controller lock; terminate() running in between shuts the closed socket down once more: no effect, stuttering)
 TrShutdown  == /\ Is("Shutdown") /\ Step
-               /\ Shutdown(Ev.s)
+               /\ \/ Shutdown(Ev.s)
+                  \/ /\ phase = "terminating" /\ sk[Ev.s].st = "SHUTDOWN" /\ sk[Ev.s].reg = "none"
+                     /\ UNCHANGED <<phase, sk, th, toShut, ndel>>
                /\ UNCHANGED cur
 TrTermEnd   == /\ Is("TermEnd") /\ Step
                /\ TermEnd
@@ -143,7 +157,7 @@ TrEnd ==
     /\ (\A t \in StuckNow : sk[th[t].s].reg = "dead")       \* NoStuckLive on the real execution
     /\ UNCHANGED <<phase, sk, th, toShut, ndel, cur>>
 
-Real == TrCall \/ TrBound \/ TrAdopt \/ TrTook \/ TrWait \/ TrWake \/ TrRet \/ TrDeliver \/ TrTermBegin \/ TrShutdown
+Real == TrCall \/ TrBound \/ TrAdopt \/ TrTook \/ TrTookOpq \/ TrWait \/ TrWake \/ TrRet \/ TrDeliver \/ TrTermBegin \/ TrShutdown
         \/ TrTermEnd \/ TrAppClose \/ TrEnd
 
 Why == [ev |-> Ev,
